@@ -1,3 +1,55 @@
+#ifdef AGG
+/* aggregator_generic: rely/guarantee proof that (a) at most one thread is between 'pushed onto an empty list' and exchange(nullptr), (b) at most one
+   thread is inside handle_operations, (c) every pushed operation is handed to exactly one batch and handled before execute() returns. */
+#include "verif.h"
+struct op { uintptr_t status; struct op *next; };
+struct agg { struct op *pending_operations; uintptr_t handler_busy; };
+static struct agg AGGR; static struct op MINE, O1, O2;
+unsigned long gW, gA; bool meW, meA; int my_op; unsigned handled;     /* my_op: 0 new, 1 listed, 2 in some batch, 3 handled */
+#define AINV (gW <= 1 && gA <= 1 && AGGR.handler_busy == gA && (AGGR.pending_operations != NULL) == (gW == 1) && gW >= (unsigned long)meW && gA >= (unsigned long)meA \
+              && (my_op != 1 || AGGR.pending_operations != NULL) && (MINE.status != 0) == (my_op == 3) && handled == (my_op == 3 ? 1u : 0u))
+static void interfere(void) {
+    uintptr_t ob = AGGR.handler_busy; int k = nondet_int();
+    AGGR.pending_operations = k == 0 ? NULL : k == 1 ? &O1 : k == 2 ? &O2 : &MINE; AGGR.handler_busy = nondet_uintptr_t(); gW = nondet_ulong(); gA = nondet_ulong();
+    /* my operation can be taken into a batch and handled by ANOTHER designated thread, never while I am the designated one */
+    if (my_op == 1 && !meW && nondet_bool()) my_op = 2;
+    if (my_op == 2 && !meA && !meW && nondet_bool()) { my_op = 3; MINE.status = 1; handled++; }
+    __CPROVER_assume(AGGR.pending_operations != &MINE || my_op == 1);
+    __CPROVER_assume(AINV);
+    __CPROVER_assume(!meA || AGGR.handler_busy == 1);              /* nobody clears the flag of the active handler */
+    __CPROVER_assume(!meW || AGGR.handler_busy <= ob);             /* only the designated thread may raise it */
+}
+#define ATOMIC_LOAD_AT(site, f) ({ interfere(); (f); })
+#define ATOMIC_STORE_AT(site, f, v) do { interfere(); GHOSTPRE_##site; (f) = (v); GHOST_##site; __CPROVER_assert(AINV, "guarantee: aggregator invariant at " #site); } while (0)
+#define ATOMIC_XCHG_AT(site, f, v) ({ interfere(); struct op *old_ = (f); (f) = (v); GHOST_##site; __CPROVER_assert(AINV, "guarantee: aggregator invariant at " #site); old_; })
+#define ATOMIC_CAS_AT(site, f, e, d) ({ interfere(); struct op *o_ = (f); bool r_ = (o_ == *(e)); if (r_) (f) = (d); else *(e) = o_; GHOST_##site; __CPROVER_assert(AINV, "guarantee: aggregator invariant at " #site); r_; })
+#define NOG ((void)0)
+#define GHOSTPRE_exe_STORE_1 NOG
+#define GHOST_exe_STORE_1 NOG
+#define GHOST_exe_CAS_1 do { if (r_) { my_op = 1; if (o_ == NULL) { gW++; meW = true; } } } while (0)
+#define GHOSTPRE_sho_STORE_1 __CPROVER_assert(meW && AGGR.handler_busy == 0, "C13.agg: only the thread that pushed onto an empty list raises handler_busy, and only after seeing it clear")
+#define GHOST_sho_STORE_1 do { gA++; meA = true; } while (0)
+#define GHOST_sho_XCHG_1 do { __CPROVER_assert(meW && old_ != NULL, "C13.agg: the designated thread grabs a non-empty list"); gW--; meW = false; if (my_op == 1) my_op = 2; } while (0)
+#define GHOSTPRE_sho_STORE_2 __CPROVER_assert(meA, "C13.agg: only the active handler clears handler_busy")
+#define GHOST_sho_STORE_2 do { gA--; meA = false; } while (0)
+#define SPIN_WAIT_UNTIL_EQ(loc, v) do { interfere(); __CPROVER_assume((loc) == (v)); } while (0)
+#define SPIN_WAIT_WHILE_EQ(loc, v) do { interfere(); __CPROVER_assume((loc) != (v)); } while (0)
+static void STUB_handle_operations(struct op *list) {
+    OBLIGATION(meA && gA == 1 && !meW, "C13.agg: at most one thread is inside handle_operations (the handler is sequential code)");
+    OBLIGATION(my_op == 2, "C13.agg: the batch handed to the handler contains this thread's operation, which was in no earlier batch");
+    my_op = 3; MINE.status = 1; handled++;                       /* contract of the handler: every operation of the batch gets a non-zero status */
+}
+#define LOOP_exe_1 __CPROVER_assigns(res, MINE, AGGR, gW, gA, meW, meA, my_op, handled) __CPROVER_loop_invariant(AINV && my_op == 0 && !meW && !meA)
+#include "agg.inc"
+void h_agg(void) {
+    AGGR.pending_operations = nondet_bool() ? NULL : &O1; AGGR.handler_busy = nondet_uintptr_t(); gW = nondet_ulong(); gA = nondet_ulong(); meW = meA = false; my_op = 0; handled = 0; MINE.status = 0; MINE.next = NULL;
+    __CPROVER_assume(AINV);
+    agg_execute(&AGGR, &MINE, true);
+    OBLIGATION(MINE.status != 0 && handled == 1 && my_op == 3, "C13.agg: execute() returns only after the operation was handled, and it was handled exactly once");
+    OBLIGATION(!meW && !meA, "C13.agg: no role is left behind");
+    VACUITY_END();
+}
+#else
 /* C13 harnesses (bounded stand-ins: heap order talks about neighbouring indices; no quantifier support in any back end). */
 #include "verif.h"
 typedef int value_type;
@@ -109,3 +161,5 @@ void h_handle(void) {
     VACUITY_END();
 }
 #endif
+
+#endif /* !AGG */
